@@ -132,3 +132,50 @@ VARIANTS += [
       "{repetitions}\" if repetitions != 1 else\n                f\"{width}"
       "{INTERNAL_SEP}{height}\")", "silent", ""),
 ]
+
+GP = "moptipyapps/ttp/game_plan.py"
+GS = "moptipyapps/ttp/game_plan_space.py"
+OS = "moptipyapps/order1d/space.py"
+VARIANTS += [
+    V("game-plan-reader-never-cuts", GS, "        if lb > 0:",
+      "        if lb < 0:", "fire", "D19.3",
+      "the human-readable part would be parsed as data"),
+    V("ordering-reader-never-cuts", OS, "        if idx > 0:",
+      "        if idx < 0:", "fire", "D19.3"),
+    V("game-plan-first-line-without-values", GP,
+      "                sio.write(str(k))\n", "", "fire", "D19.3"),
+    V("game-plan-first-line-without-separators", GP,
+      "            for k in self.flatten():\n                sio.write(sep)\n",
+      "            for k in self.flatten():\n", "fire", "D19.3"),
+    V("game-plan-reader-copies-backwards", GS,
+      "        np.copyto(x, np.fromstring(text, dtype=x.dtype, sep="
+      "CSV_SEPARATOR)\n                  .reshape(x.shape))",
+      "        np.copyto(np.fromstring(text, dtype=x.dtype, sep="
+      "CSV_SEPARATOR)\n                  .reshape(x.shape), x)", "fire",
+      "D19.3"),
+    V("silent-game-plan-reader-ge", GS, "        if lb > 0:",
+      "        if lb >= 0:", "silent", ""),
+]
+
+VARIANTS += [
+    V("result-reader-rejects-even-bounds", R,
+      "        if (n_bounds & 1) != 0:", "        if (n_bounds & 1) == 0:",
+      "fire", "D19.1"),
+    V("result-reader-bound-count-check-inverted", R,
+      "        if (2 * n_objectives) != n_bounds:",
+      "        if (2 * n_objectives) == n_bounds:", "fire", "D19.1"),
+    V("result-reader-drops-all-optional-cells", R,
+      "            {n: int(data[i]) for n, i in self.__bin_bounds\n"
+      "             if str.__len__(data[i]) > 0})",
+      "            {n: int(data[i]) for n, i in self.__bin_bounds\n"
+      "             if str.__len__(data[i]) < 0})", "fire", "D19.1"),
+    V("stats-reader-objective-name-second-part", S,
+      "                  for ss in sorted({s[0] for s in (str.split(",
+      "                  for ss in sorted({s[1] for s in (str.split(",
+      "fire", "D19.1"),
+    V("result-reader-column-lookup-swapped", R,
+      "csv_column(columns, KEY_BIN_WIDTH)", "csv_column(KEY_BIN_WIDTH, "
+      "columns)", "fire", "D19.1"),
+    V("silent-result-reader-strict-positive", R,
+      "        if n_bounds <= 0:", "        if n_bounds < 1:", "silent", ""),
+]
